@@ -86,6 +86,15 @@ func init() {
 					fromSpecs = append(fromSpecs, fromSpec{fi, ui, s})
 				}
 			}
+			// the canonical name, spelled exactly as pprof prints it: reports feed it back as a
+			// unit, and two of them (m*GCU, M*GCU) differ by case only
+			dup := false
+			for _, x := range fromSpecs {
+				dup = dup || (x.fam == fi && x.spelling == u.canon)
+			}
+			if !dup {
+				fromSpecs = append(fromSpecs, fromSpec{fi, ui, u.canon})
+			}
 		}
 	}
 }
@@ -129,6 +138,40 @@ func autoExpect(fam family, base *big.Rat) (*big.Rat, string) {
 	return new(big.Rat).Quo(base, best.factor), best.canon
 }
 
+// learnUnit asks pprof itself about a unit name that the documented table does not list (a unit
+// added to pprof's table later): its factor is what one such unit converts to in the family's
+// smallest unit. nil if pprof does not place the name in this family.
+func learnUnit(fam family, name string) *big.Rat {
+	if name == "" {
+		return nil
+	}
+	for _, u := range fam.units {
+		if u.canon == name {
+			return u.factor
+		}
+	}
+	small := fam.units[0]
+	got, gu := measurement.Scale(1, name, small.aliases[0])
+	if gu != small.canon || !(got > 0) || math.IsInf(got, 0) {
+		return nil
+	}
+	f := new(big.Rat).SetFloat64(got)
+	if f == nil {
+		return nil
+	}
+	return f.Mul(f, small.factor)
+}
+
+// knownUnit reports whether the documented table lists the canonical name.
+func knownUnit(fam family, name string) bool {
+	for _, u := range fam.units {
+		if u.canon == name {
+			return true
+		}
+	}
+	return false
+}
+
 func checkFrom(c *harness.Ctx, fs fromSpec, vals []int64) string {
 	fam := families[fs.fam]
 	fu := fam.units[fs.u]
@@ -136,7 +179,7 @@ func checkFrom(c *harness.Ctx, fs fromSpec, vals []int64) string {
 		base := mul(v, fu.factor)
 		// explicit targets in the same family
 		for _, tu := range fam.units {
-			for _, ta := range tu.aliases {
+			for _, ta := range append(append([]string{}, tu.aliases...), tu.canon) {
 				c.Stat("conversions", 1)
 				got, gu := measurement.Scale(v, fs.spelling, ta)
 				want := new(big.Rat).Quo(base, tu.factor)
@@ -164,6 +207,15 @@ func checkFrom(c *harness.Ctx, fs fromSpec, vals []int64) string {
 			c.Stat("autoscale", 1)
 			got, gu := measurement.Scale(v, fs.spelling, mode)
 			want, wu := autoExpect(fam, base)
+			if !knownUnit(fam, gu) {
+				// a unit the documented table does not have: it must be at least as large as the
+				// largest documented unit that keeps the magnitude at or above one, keep the
+				// magnitude at or above one itself, and carry the exact value
+				if f := learnUnit(fam, gu); f != nil && f.Cmp(learnUnit(fam, wu)) >= 0 && math.Abs(got) >= 1 && near(got, new(big.Rat).Quo(base, f)) {
+					c.Stat("autoscale_to_units_beyond_the_documented_table", 1)
+					continue
+				}
+			}
 			if gu != wu || !near(got, want) {
 				wf, _ := want.Float64()
 				return fmt.Sprintf("Scale(%d,%q,%q) = (%v,%q); the largest unit keeping |magnitude|>=1 gives (%v,%q)", v, fs.spelling, mode, got, gu, wf, wu)
@@ -271,12 +323,27 @@ func parseLabel(lbl string, fam family) (*big.Rat, bool) {
 	if !ok {
 		return nil, false
 	}
-	for _, u := range fam.units {
-		if u.canon == m[2] {
-			return num.Mul(num, u.factor), true
-		}
+	if f := learnUnit(fam, m[2]); f != nil {
+		return num.Mul(num, f), true
 	}
 	return nil, false
+}
+
+// shownFactor is the factor of the unit a label is printed in (nil if it has none of the family).
+func shownFactor(lbl string, fam family) *big.Rat {
+	if m := labelRx.FindStringSubmatch(lbl); m != nil {
+		return learnUnit(fam, m[2])
+	}
+	return nil
+}
+
+// widen returns the larger of the expected unit's factor and the factor of the unit shown: display
+// rounding is half a digit of the unit actually printed.
+func widen(uf *big.Rat, lbl string, fam family) *big.Rat {
+	if sf := shownFactor(lbl, fam); sf != nil && (uf == nil || sf.Cmp(uf) > 0) {
+		return sf
+	}
+	return uf
 }
 
 func runLabels(c *harness.Ctx) harness.Result {
@@ -318,6 +385,7 @@ func runLabels(c *harness.Ctx) harness.Result {
 				uf = u.factor
 			}
 		}
+		uf = widen(uf, lbl, fam)
 		tol := new(big.Rat).Mul(rat(5001, 1000000), uf)
 		relTol := new(big.Rat).Mul(new(big.Rat).Abs(orig), big.NewRat(1, 1e12))
 		tol.Add(tol, relTol)
@@ -497,6 +565,12 @@ func runDriverTop(c *harness.Ctx) harness.Result {
 					shown = &fam.units[i]
 				}
 			}
+			if shown == nil && !explicit {
+				// a unit beyond the documented table, as pprof itself defines it
+				if lf := learnUnit(fam, m[2]); lf != nil {
+					shown = &unit{canon: m[2], factor: lf}
+				}
+			}
 		}
 		if f[0] == "0" && v != 0 && !explicit {
 			return harness.Violation("%s: %s has the value %d but is printed as 0: with -unit=minimum the unit of the report is chosen so that its smallest entry still shows (at least 0.01 of the unit)\n%s", desc, f[len(f)-1], v, out)
@@ -559,6 +633,7 @@ func runDriverTop(c *harness.Ctx) harness.Result {
 			if uf == nil {
 				uf = fu.factor
 			}
+			uf = widen(uf, row[1], fam)
 			tol := new(big.Rat).Mul(rat(5001, 1000000), uf)
 			tol.Add(tol, fu.factor) // one source unit for the integer scaling
 			tol.Add(tol, new(big.Rat).Mul(new(big.Rat).Abs(orig), big.NewRat(1, 1e9)))
